@@ -6,6 +6,7 @@ mod oracle;
 mod prog;
 mod props;
 mod strs;
+mod teardown;
 mod world;
 
 use std::collections::{BTreeMap, HashSet};
@@ -73,6 +74,9 @@ fn worker(args: &[String]) -> i32 {
     let cancelable = arg(args, "--cancelable").unwrap_or("false") == "true";
     let thorough = arg(args, "--tier").unwrap_or("quick") == "thorough";
     let known: Vec<String> = arg(args, "--known").map(|k| k.split("||").filter(|s| !s.is_empty()).map(|s| s.to_string()).collect()).unwrap_or_default();
+    if variant == "teardown" {
+        return teardown_worker(args, seed, wid, cases, out, &known);
+    }
     let spec = match props::spec(prop, variant, cancelable, thorough) {
         Some(s) => s,
         None => {
@@ -174,16 +178,83 @@ fn worker(args: &[String]) -> i32 {
     0
 }
 
+fn teardown_worker(args: &[String], seed: u64, wid: u64, cases: u32, out: &str, known: &[String]) -> i32 {
+    let _ = args;
+    quiet_panics();
+    exec::ensure_reporter_api(false);
+    let strategy = teardown::strategy();
+    let cfg = Config { cases, failure_persistence: None, max_shrink_iters: 2000, ..Config::default() };
+    let mut runner = TestRunner::new_with_rng(cfg, TestRng::from_seed(RngAlgorithm::ChaCha, &seed_bytes(seed, wid, "teardown")));
+    let progress = format!("{}.progress", out);
+    let start = std::time::Instant::now();
+    let st = std::cell::RefCell::new((0u64, HashSet::<u64>::new(), Vec::<serde_json::Value>::new(), false));
+    let res = runner.run(&strategy, |c| {
+        // a crash (abort) kills the process: leave the case behind for the driver
+        std::fs::write(&progress, serde_json::to_string(&json!({"property": "C07", "variant": "teardown", "target": "plain", "program": c, "expect": "pass"})).unwrap()).ok();
+        let fails = teardown::run(&c);
+        let sigs: Vec<String> = fails.iter().map(|f| format!("teardown-panic:{}", f.split(':').take(2).collect::<Vec<_>>().join(":"))).collect();
+        let unknown: Vec<&String> = sigs.iter().filter(|s| !known.contains(s)).collect();
+        let mut s = st.borrow_mut();
+        if !s.3 {
+            s.0 += 1;
+            if !c.dtor.is_empty() {
+                use std::hash::{Hash, Hasher};
+                let mut h = std::collections::hash_map::DefaultHasher::new();
+                format!("{:?}", c).hash(&mut h);
+                if s.1.insert(h.finish()) && s.2.len() < 3 {
+                    s.2.push(serde_json::to_value(&c).unwrap());
+                }
+            }
+        }
+        if unknown.is_empty() {
+            Ok(())
+        } else {
+            s.3 = true;
+            Err(TestCaseError::fail(unknown[0].clone()))
+        }
+    });
+    std::fs::remove_file(&progress).ok();
+    let s = st.into_inner();
+    let mut failure = serde_json::Value::Null;
+    if let Err(TestError::Fail(reason, c)) = &res {
+        let fails = teardown::run(c);
+        failure = json!({"signature": reason.to_string(), "program": c, "violations": fails.iter().map(|f| json!({"sig": reason.to_string(), "msg": f})).collect::<Vec<_>>()});
+    }
+    let mut nt: Vec<u64> = s.1.iter().cloned().collect();
+    nt.sort();
+    let res = json!({
+        "property": "C07", "variant": "teardown", "cancelable": false, "seed": seed, "worker": wid,
+        "evaluations": s.0, "nontrivial_hashes": nt.iter().map(|h| format!("{:016x}", h)).collect::<Vec<_>>(),
+        "labels": {"teardown_case": s.0}, "excluded": {}, "known_hits": {}, "samples": s.2,
+        "records_delivered": 0, "ops_executed": 0, "ops_skipped": 0, "failure": failure,
+        "rule": "thread-local teardown: a user thread-local (registered before or after the library's) whose destructor runs a generated tracing call sequence and drops stashed spans/guards, on a fresh OS thread per case; non-trivial = the destructor runs >=1 tracing call; distinct = hash of the case",
+        "wall_s": start.elapsed().as_secs_f64(),
+    });
+    std::fs::File::create(out).unwrap().write_all(serde_json::to_string(&res).unwrap().as_bytes()).unwrap();
+    0
+}
+
 fn replay(args: &[String]) -> i32 {
     let file = arg(args, "--file").expect("--file");
     let txt = std::fs::read_to_string(file).expect("read replay");
     let v: serde_json::Value = serde_json::from_str(&txt).expect("json");
+    if v["variant"].as_str() == Some("teardown") {
+        quiet_panics();
+        exec::ensure_reporter_api(false);
+        let c: teardown::TdCase = serde_json::from_value(v["program"].clone()).expect("teardown case");
+        let fails = teardown::run(&c);
+        println!("{}", serde_json::to_string_pretty(&json!({"violations": fails.iter().map(|f| json!({"sig": format!("teardown-panic:{}", f.split(':').take(2).collect::<Vec<_>>().join(":")), "msg": f})).collect::<Vec<_>>(), "narrative": []})).unwrap());
+        return if fails.is_empty() { 0 } else { 1 };
+    }
     let prop = v["property"].as_str().unwrap();
     let variant = v["variant"].as_str().unwrap_or("api");
     let pv = if v["program"].is_null() { v["failure"]["program"].clone() } else { v["program"].clone() };
     let p: Program = serde_json::from_value(pv).expect("program");
     let spec = props::spec(prop, variant, p.cancelable, false).expect("spec");
     quiet_panics();
+    if std::thread::available_parallelism().is_ok() && variant == "disabled" {
+        // nothing special: the disabled build simply has no recording paths
+    }
     let mut opts = spec.opts.clone();
     if arg(args, "--strict").is_some() {
         opts.exclude.clear();
